@@ -205,7 +205,7 @@ func (s *Shard) InsertPoints(points []models.Point) error {
 			// they must not touch the buckets once this transaction is
 			// rolled back.
 			cancel()
-			for range dispatchErrC {
+			for range mergedErrC {
 			}
 			return fmt.Errorf("could not complete insert: %w", err)
 		}
@@ -326,7 +326,7 @@ func (s *Shard) UpdatePoints(points []models.Point) ([]uuid.UUID, error) {
 			// they must not touch the buckets once this transaction is
 			// rolled back.
 			cancel()
-			for range dispatchErrC {
+			for range mergedErrC {
 			}
 			return fmt.Errorf("could not complete update: %w", err)
 		}
@@ -553,7 +553,7 @@ func (s *Shard) DeletePoints(deleteSet map[uuid.UUID]struct{}) ([]uuid.UUID, err
 			// they must not touch the buckets once this transaction is
 			// rolled back.
 			cancel()
-			for range dispatchErrC {
+			for range mergedErrC {
 			}
 			return fmt.Errorf("could not complete insert: %w", err)
 		}
